@@ -36,22 +36,23 @@ def _sum_by_group_sorted(indices, *values):
     # make indices unique for output
     indices = indices[index]
 
+    # first position of every group of equal indices
+    first = np.ones(len(index), 'bool')
+    first[1:] = index[:-1]
+    starts = np.flatnonzero(first)
+
     val = list(values)
     for i, _ in enumerate(val):
-        # sum up values, chose only those with unique indices and then subtract the previous sums
-        # --> this way for each index the sum of all values belonging to this index is returned
+        # sum up the values of each group separately (differences of one running sum over all groups lose
+        # the digits of small values that follow a very large one, e.g. lambda of a pipe without flow)
         nans = np.isnan(val[i])
         if np.any(nans):
-            np.nan_to_num(val[i], copy=False)
-            np.cumsum(val[i], out=val[i])
-            val[i] = val[i][index]
-            still_na = nans[index]
-            val[i][1:] = val[i][1:] - val[i][:-1]
-            val[i][still_na] = np.nan
+            val[i] = np.add.reduceat(np.nan_to_num(val[i]), starts)
+            val[i][nans[index]] = np.nan
+        elif len(starts):
+            val[i] = np.add.reduceat(val[i], starts)
         else:
-            np.cumsum(val[i], out=val[i])
             val[i] = val[i][index]
-            val[i][1:] = val[i][1:] - val[i][:-1]
     return [indices] + val
 
 
